@@ -75,6 +75,8 @@ def rules(ck, P):
             skip = skip or ir.contains(lp["body"], lambda y: y.get("k") == "continue") or ir.contains(lp["body"], lambda y: y.get("k") in ("if", "match") and ir.contains(y, lambda z: "None" in (z.get("q") or "") or z.get("k") == "letx"))
         ck.check(skip, "R-SQL-NULL", b["q"] + "|gap", "levels between MIN and MAX zoom that hold no tiles are skipped", "every level between MIN(zoom_level) and MAX(zoom_level) is assumed to hold tiles", ir.loc(b))
 
+        _mb_nonempty(ck, P, b)
+
     # ---------------- R-SPARSE
     for i in P.impls_of("::TilesReaderTrait"):
         if not i.get("self_adt", "").endswith("::VersaTilesReader"):
@@ -203,6 +205,81 @@ def rules(ck, P):
             t = [wire.match_table(n) for n in ir.walk_nodes(fu["body"]) if n.get("k") == "match"]
             inv = {v: k for k, v in (t[0] if t else {}).items() if v is not None}
             ck.check(inv == wire.SPEC_CODES[spec_key], "R-CODE", spec_key + "|from_u8", "from_u8 accepts exactly the published codes", "from_u8 table %s" % (t[0] if t else None), ir.loc(fu))
+
+
+def _mb_nonempty(ck, P, b):
+    """Queries that turn a NULL aggregate (empty WHERE set) into an error must have a WHERE set that is non-empty for every
+    valid file: a row known to exist (found by an earlier query at the same level) has to satisfy the whole WHERE clause."""
+    import re
+    from . import c03
+    frag = {}
+    for n in ir.walk_nodes(b["body"]):
+        if n.get("k") == "let" and n["pat"].get("k") == "bind" and "init" in n and n["pat"].get("t", "").endswith("String"):
+            fl = c03.fmt_literal(n["init"])
+            if fl:
+                frag[n["pat"]["name"]] = fl[0]
+
+    def expand(lit, depth=0):
+        return lit if depth > 3 else re.sub(r"\{(\w+)\}", lambda m: expand(frag[m.group(1)], depth + 1) if m.group(1) in frag else m.group(0), lit)
+    wrappers = {}
+    for n in ir.walk_nodes(b["body"]):
+        if n.get("k") == "let" and n["pat"].get("k") == "bind" and n.get("init", {}).get("k") == "closure" and \
+                ir.contains(n["init"]["body"], lambda y: y.get("k") == "mcall" and y.get("name") == "simple_query"):
+            errs = ir.contains(n["init"]["body"], lambda y: y.get("k") == "mcall" and y.get("name") in ("ok_or_else", "ok_or", "context", "with_context", "unwrap", "expect"))
+            wrappers[n["pat"]["hid"]] = errs
+    # variables holding a value that exists at level {z}
+    col_wit, row_wit, col_wit_opt = set(), set(), set()
+    n_checked = 0
+    bad = []
+    for n in ir.walk_nodes(b["body"]):
+        tgt = val = None
+        if n.get("k") == "let" and "init" in n:
+            bs = ir.pat_binds(n["pat"])
+            tgt, val = [x["name"] for x in bs], n["init"]
+        elif n.get("k") == "assign":
+            tgt, val = [ir.place_str(n["l"])], n["r"]
+        if val is None or val.get("k") == "closure":
+            continue
+        calls = [y for y in ir.walk_nodes(val) if c03._is_query(y, set(wrappers))]
+        if n.get("k") == "let" and "els" in n and not calls:
+            # let (Some(x0), Some(x1)) = (x0, x1) else { continue }: the unwrapped names are witnesses if their sources were level queries
+            for x in tgt:
+                if x in col_wit_opt:
+                    col_wit.add(x)
+            continue
+        if len(calls) != 1:
+            continue
+        c = calls[0]
+        agg = ir.const_eval_str(c["a"][0]) or ""
+        fl = c03.fmt_literal(c["a"][1])
+        where = expand(fl[0]) if fl else (ir.const_eval_str(c["a"][1]) or "")
+        via_err = c.get("k") == "call" and wrappers.get(ir.local_hid(c["f"]), False)
+        level = "zoom_level = {z}" in where
+        if not via_err:
+            if level and "tile_column" in agg and not ("tile_column" in where or "tile_row" in where):
+                col_wit_opt.update(tgt)
+            continue
+        n_checked += 1
+        conj = [x.strip() for x in re.split(r"\s+AND\s+(?![^()]*\))", where) if x.strip()]
+        rest = [x for x in conj if x != "zoom_level = {z}"]
+        ok = False
+        if not conj:
+            ok = True     # whole table: an MBTiles file without any tile holds nothing to return
+        elif level and len(rest) == 1:
+            r = rest[0]
+            dis = [d.strip() for d in r.strip("()").split(" OR ")]
+            if any(re.fullmatch(r"tile_column = \{(\w+)\}", d) and re.fullmatch(r"tile_column = \{(\w+)\}", d).group(1) in col_wit for d in dis):
+                ok = True
+            m = re.fullmatch(r"tile_row (<=|>=) \{(\w+)\}", r)
+            if m and m.group(2) in row_wit:
+                ok = True
+        if ok and level and "tile_row" in agg:
+            row_wit.update(tgt)
+        if not ok:
+            bad.append("%s <- %s WHERE %s" % (tgt, agg, where))
+    ck.check(not bad and n_checked >= 4, "R-SQL-NULL", b["q"] + "|non-empty-where", "every query whose NULL result is an error has a WHERE set containing a row already known to exist at that level (%d queries)" % n_checked,
+             "a NULL aggregate is turned into an error although its WHERE set can be empty in a valid file (sparse columns / rows): %s" % bad[:2], ir.loc(b))
+
 
 
 # accessors that are the identity of the object they are called on (reason reviewed):
